@@ -30,13 +30,22 @@ def main():
         try:
             shutil.copytree('/repo/pycdlib', os.path.join(tmp, 'pycdlib'))
             shutil.copytree('/repo/tools', os.path.join(tmp, 'tools'))
-            path = os.path.join(tmp, m['file'])
-            src = open(path).read()
-            if src.count(m['old']) != m.get('count', 1):
-                rows.append((m['name'], 'PATTERN-NOT-FOUND(%d)' % src.count(m['old'])))
-                ok = False
-                continue
-            open(path, 'w').write(src.replace(m['old'], m['new']))
+            if 'revert_commit' in m:
+                # the mutant is 'the repair of a defect undone': the check must report the defect again
+                d = subprocess.run(['git', '-C', '/repo', 'diff', m['revert_commit'] + '~1', m['revert_commit']], capture_output=True, text=True)
+                p = subprocess.run(['patch', '-R', '-p1', '-s'], input=d.stdout, cwd=tmp, capture_output=True, text=True)
+                if p.returncode != 0:
+                    rows.append((m['name'], 'REVERT-DOES-NOT-APPLY ' + (p.stdout + p.stderr)[-120:].replace('\n', ' ')))
+                    ok = False
+                    continue
+            else:
+                path = os.path.join(tmp, m['file'])
+                src = open(path).read()
+                if src.count(m['old']) != m.get('count', 1):
+                    rows.append((m['name'], 'PATTERN-NOT-FOUND(%d)' % src.count(m['old'])))
+                    ok = False
+                    continue
+                open(path, 'w').write(src.replace(m['old'], m['new']))
             env = dict(os.environ, PYVC_REPO=tmp)
             out = subprocess.run([os.path.join(VERIF, 'check'), m['prop'], '--tier', 'quick'], capture_output=True, text=True, env=env, cwd=VERIF)
             viol = [l for l in out.stdout.split('\n') if l.startswith('VIOLATION')]
